@@ -744,6 +744,8 @@ class Interp:
         return raw(deps, deg={}, const=self.cstr(e, env))
 
     def ev_Attribute(self, e, env, cx):
+        if isinstance(e.value, ast.Name) and e.value.id == "operator" and "operator" not in env:
+            return V("opfn", const=e.attr)      # operator.ge / operator.add …: a pure function of its arguments
         if isinstance(e.value, ast.Call) and isinstance(e.value.func, ast.Name) and e.value.func.id == "super":
             slf = env.get("self")
             cur = cx.stack[-1] if cx.stack else None
@@ -1041,6 +1043,8 @@ class Interp:
             kw = dict(pk, **kw)
         if isinstance(f, ast.Name) and f.id in env and env[f.id].k == "lambda":
             return self.call_closure(env[f.id], args, kw, cx)
+        if isinstance(f, ast.Name) and f.id in env and env[f.id].k == "opfn":
+            return raw(alld | env[f.id].deps, deg={})
         if isinstance(f, ast.Name) and f.id in env and env[f.id].k in ("meth", "getter"):
             # a local that holds a (bound or unbound) method: a parameter, a row of a dispatch table
             fv = env[f.id]
@@ -1070,6 +1074,9 @@ class Interp:
             kw = dict(pk, **kw)
         if fv.k == "getter" and args:
             return self.get_path(args[0], fv.const, cx, e) if args[0].k == "obj" else raw(alld, deg={})
+        if fv.k == "opfn":
+            # an operator function taken from a table: comparisons give a plain truth value of their arguments
+            return raw(alld | fv.deps, deg={})
         if fv.k == "lambda":          # (lambda x: …)(a), or a closure reached through an expression
             return self.call_closure(fv, args, kw, cx)
         if fv.k == "meth" and fv.meths and fv.const == "<unbound>" and args:
